@@ -46,7 +46,27 @@ func splitDFile(r *Rand, d *dFile) *c04Split {
 				cut := 1 + r.Intn(len(t.Fields)-1)
 				t1, t2 := t, t
 				t1.Fields, t2.Fields = t.Fields[:cut], t.Fields[cut:]
+				// the first piece carries the named values, the second the tags (or nothing)
 				t2.Attrs = emptyAttrs()
+				// a type declared inside goes with the first piece; half of the time its own fields are cut as well
+				// (each field is still written exactly once)
+				t1.Nested, t2.Nested = nil, nil
+				for _, n := range t.Nested {
+					if len(n.Fields) >= 2 && r.Bool() {
+						c := 1 + r.Intn(len(n.Fields)-1)
+						n1, n2 := n, n
+						n1.Fields, n2.Fields = n.Fields[:c], n.Fields[c:]
+						n2.Attrs = emptyAttrs()
+						t1.Nested = append(t1.Nested, n1)
+						t2.Nested = append(t2.Nested, n2)
+					} else {
+						t1.Nested = append(t1.Nested, n)
+					}
+				}
+				if r.Bool() {
+					t1.Attrs = dAttrs{Tags: []string{}, KV: t.Attrs.KV}
+					t2.Attrs = dAttrs{Tags: t.Attrs.Tags, KV: []dKV{}}
+				}
 				b1 := r.Intn(k)
 				b2 := r.Intn(k)
 				if b2 < b1 {
